@@ -552,7 +552,11 @@ class Interp:
             if st.exc is not None:
                 e = st.exc.func if isinstance(st.exc, ast.Call) else st.exc
                 name = dotted(e) or "Exception"
-            raise RaiseSignal(name, st)
+                if isinstance(e, ast.Name) and isinstance(self.env.get(e.id), Sym) and self.env[e.id].name.startswith("exc:"):
+                    name = self.env[e.id].name[4:]  # raise <caught exception variable>
+            elif getattr(self, "_handling", None):
+                name = self._handling[-1]  # bare `raise` inside a handler: the exception being handled
+            raise RaiseSignal(name.split(".")[-1], st)
         elif isinstance(st, ast.Assert):
             if not self.truth(self.eval(st.test), st.test):
                 raise RaiseSignal("AssertionError", st)
@@ -587,25 +591,60 @@ class Interp:
                 base = getattr(st, "module", None)
                 self.env[nm] = Sym("ext:" + (f"{base}.{a.name}" if base else a.name))
         elif isinstance(st, ast.Try):
+            # finally runs on every exit of the statement: normal, return / break / continue, exception
             try:
-                self.exec_block(st.body)
-            except RaiseSignal as r:
-                handled = False
-                for h in st.handlers:
-                    hn = dotted(h.type) if h.type is not None else None
-                    if hn is None or hn in ("Exception", "BaseException", r.exc_name):
-                        if h.name:
-                            self.env[h.name] = Sym("exc:" + r.exc_name)
-                        self.exec_block(h.body)
-                        handled = True
-                        break
-                if not handled:
-                    raise
+                try:
+                    self.exec_block(st.body)
+                except RaiseSignal as r:
+                    handled = False
+                    for h in st.handlers:
+                        if _handler_catches(h.type, r.exc_name):
+                            if h.name:
+                                self.env[h.name] = Sym("exc:" + r.exc_name)
+                            if not hasattr(self, "_handling"):
+                                self._handling = []
+                            self._handling.append(r.exc_name)
+                            try:
+                                self.exec_block(h.body)
+                            finally:
+                                self._handling.pop()
+                            handled = True
+                            break
+                    if not handled:
+                        raise
+                else:
+                    self.exec_block(st.orelse)
+            finally:
+                if st.finalbody:
+                    self.exec_block(st.finalbody)
+        elif isinstance(st, ast.While):
+            # bounded unrolling; a loop that does not end within the bound is not decided
+            n_ = 0
+            while self.truth(self.eval(st.test), st.test):
+                n_ += 1
+                if n_ > 64:
+                    raise Undecided("while loop does not terminate within 64 iterations of the abstract run")
+                try:
+                    self.exec_block(st.body)
+                except _Break:
+                    break
+                except _Continue:
+                    continue
             else:
                 self.exec_block(st.orelse)
-            finally:
-                pass
-            self.exec_block(st.finalbody)
+        elif isinstance(st, ast.Match):
+            subj = self.eval(st.subject)
+            for case in st.cases:
+                b = self._match(case.pattern, subj, st)
+                if b is None:
+                    continue
+                saved_ = dict(self.env)
+                self.env.update(b)
+                if case.guard is not None and not self.truth(self.eval(case.guard), case.guard):
+                    self.env = saved_
+                    continue
+                self.exec_block(case.body)
+                break
         elif isinstance(st, ast.FunctionDef):
             if st.decorator_list or any(isinstance(n, (ast.Nonlocal, ast.Global, ast.Yield, ast.YieldFrom)) for n in ast.walk(st)):
                 raise Undecided("nested definition (decorated / nonlocal / generator)")
@@ -646,6 +685,48 @@ class Interp:
             return
         else:
             raise Undecided(f"statement {type(st).__name__}")
+
+    def _match(self, pat, v, node):
+        """bindings if the pattern matches the (concrete enough) value, None if it does not"""
+        if isinstance(pat, ast.MatchAs):
+            if pat.pattern is None:
+                return {pat.name: v} if pat.name else {}
+            b = self._match(pat.pattern, v, node)
+            if b is not None and pat.name:
+                b[pat.name] = v
+            return b
+        if isinstance(pat, ast.MatchOr):
+            for p_ in pat.patterns:
+                b = self._match(p_, v, node)
+                if b is not None:
+                    return b
+            return None
+        if isinstance(pat, ast.MatchSingleton):
+            if isinstance(v, Unknown):
+                raise Undecided("match on an unmodelled value")
+            return {} if v is pat.value else None
+        if isinstance(pat, ast.MatchValue):
+            r = self.compare(ast.Eq(), v, self.eval(pat.value), node)
+            return {} if self.truth(r, node) else None
+        if isinstance(pat, ast.MatchSequence) and isinstance(v, (list, tuple)) and not any(isinstance(p_, ast.MatchStar) for p_ in pat.patterns):
+            if len(v) != len(pat.patterns):
+                return None
+            out = {}
+            for p_, x in zip(pat.patterns, v):
+                b = self._match(p_, x, node)
+                if b is None:
+                    return None
+                out.update(b)
+            return out
+        if isinstance(pat, ast.MatchClass) and not pat.patterns and not pat.kwd_patterns:
+            r = self.do_isinstance(v, self.eval(pat.cls), node)
+            return {} if self.truth(r, node) else None
+        raise Undecided(f"match pattern {type(pat).__name__}")
+
+    def ev_NamedExpr(self, e):
+        v = self.eval(e.value)
+        self.assign(e.target, v)
+        return v
 
     def iterate(self, it, node):
         if isinstance(it, (list, tuple, set, frozenset)):
@@ -1485,6 +1566,32 @@ class Interp:
         except (TypeError, ValueError):
             pass
         return self.external_call(name, args, kwargs, node)
+
+
+_EXC_PARENTS = {
+    "KeyError": "LookupError", "IndexError": "LookupError", "LookupError": "Exception", "ValueError": "Exception", "TypeError": "Exception",
+    "AssertionError": "Exception", "AttributeError": "Exception", "RuntimeError": "Exception", "NotImplementedError": "RuntimeError",
+    "FileNotFoundError": "OSError", "FileExistsError": "OSError", "PermissionError": "OSError", "IsADirectoryError": "OSError", "OSError": "Exception", "IOError": "Exception",
+    "ZeroDivisionError": "ArithmeticError", "OverflowError": "ArithmeticError", "ArithmeticError": "Exception", "StopIteration": "Exception",
+    "UnboundLocalError": "NameError", "NameError": "Exception", "UnicodeDecodeError": "ValueError", "Error": "Exception", "Deadlock": "Exception",
+    "UnsupportedOperation": "OSError", "Exception": "BaseException", "KeyboardInterrupt": "BaseException", "SystemExit": "BaseException",
+}
+
+
+def _handler_catches(htype, exc_name: str) -> bool:
+    """does  except <htype>:  catch an exception class named exc_name (builtin hierarchy; unknown
+    classes are taken to derive from Exception)"""
+    if htype is None:
+        return True
+    names = [dotted(x) or "" for x in (htype.elts if isinstance(htype, ast.Tuple) else [htype])]
+    names = [n.split(".")[-1] for n in names]
+    chain, cur = [], exc_name.split(".")[-1]
+    for _ in range(8):
+        chain.append(cur)
+        if cur == "BaseException":
+            break
+        cur = _EXC_PARENTS.get(cur, "Exception")
+    return any(n in chain for n in names)
 
 
 _ABSTRACT_TYPES = {
